@@ -39,6 +39,25 @@ def find_one(ctx, f, rule, rx, what):
 
 def run(ctx):
     f = ctx.facts()
+
+    # a listed hash is compared as listed: the constructor every resolved entry goes through stores the hash and the
+    # algorithm it is given, all of it (a copy that keeps only the first digest-length octets would let a longer listed
+    # hash "verify")
+    mh = f.body("repository::manifest::ManifestHash::new")
+    if mh is None:
+        ctx.missing("R-FLOW", "ManifestHash::new", "repository::manifest::ManifestHash::new")
+    else:
+        ctx.saw_fn(mh.name)
+        from engine.rules import success_values as _sv
+        vals = [strip_deep(t) for _, _, t in _sv(mh)]
+        sy = K.sym_of(mh)
+        params = [strip_deep(sy.local(i)) for i in range(1, mh.arg_count + 1)]
+        okm = len(vals) == 1 and vals[0][0] == "agg" and str(vals[0][2]) == "ManifestHash" and \
+            sorted(render(strip_deep(v)) for _, v in vals[0][3]) == sorted(render(p_) for p_ in params) and \
+            all(K.kept_as_is(v, lambda l: l in params) for _, v in vals[0][3])
+        ctx.ob("R-FLOW", "ManifestHash::new:stores-what-it-is-given", okm,
+               "ManifestHash::new stores the listed hash and the algorithm exactly as given", where=mh.loc,
+               detail=[K.alpha(render(v), mh)[:200] for v in vals])
     ctx.rule("R-CHK", "every success path passes a checked call to the sink (incl. loop form)")
     ctx.rule("R-GRD", "success requires the guard literal")
     ctx.rule("R-CLS", "byte classes extracted by abstract interpretation; set relations between them")
